@@ -161,7 +161,8 @@ def impl_init():
             base = ip / TCP(flags=c["flags"], seq=1, options=opts)
         if c.get("link"):
             from scapy.layers.l2 import CookedLinux, Dot1Q, Ether
-            base = {"ether": Ether(), "dot1q": Ether() / Dot1Q(vlan=7), "sll": CookedLinux()}[c["link"]] / base
+            mac = dict(src="02:00:00:00:00:01", dst="02:00:00:00:00:02")      # explicit: a bare Ether() asks Scapy's routing/ARP tables
+            base = {"ether": Ether(**mac), "dot1q": Ether(**mac) / Dot1Q(vlan=7), "sll": CookedLinux()}[c["link"]] / base
         if c["dbm"] is None:
             from pyp0f.database import Database
             db = Database()
